@@ -158,6 +158,7 @@ func planCase(ctx *Ctx, s *schema.Schema, tg planTarget, x reflect.Value, confor
 	impl, b := marshalGuard(arg, tg.tag)
 	ctx.Add(line, impl, true, "C01,C03,C05,C06,C14")
 	if b != nil {
+		planEncoderHygiene(ctx, s, tg, x, val, b, conforming, line)
 		// ---- C03 oracle on typed output (KMIP messages, payloads, objects, attribute values; bit masks only
 		// exist here): the independent strict parser accepts the bytes, and the library's generic decoder reads
 		// the same tree from them.
@@ -177,7 +178,18 @@ func planCase(ctx *Ctx, s *schema.Schema, tg planTarget, x reflect.Value, confor
 		return nil
 	}
 	dline := fmt.Sprintf("plan.dec %d %d %s", tg.dyn, tg.tag, hexUp(b))
-	dimpl, back := unmarshalInto(s, tg, append([]byte{}, b...))
+	inbuf := append([]byte{}, b...)
+	dimpl, back := unmarshalInto(s, tg, inbuf)
+	if back != nil {
+		// the decoded message does not share memory with the buffer it was decoded from (a transport re-uses its
+		// read buffer for the next message): overwrite the buffer, render the message again
+		for i := range inbuf {
+			inbuf[i] = 0xA5
+		}
+		if again, err := renderBack(s, tg, back); err != nil || "ok "+again != dimpl {
+			ctx.Res.Violate(report.Violation{Property: "C01", Oracle: "decoded-value-detached", Key: "plan:decoded-aliases-input:" + s.Dyns[tg.dyn].GoType, Detail: "the decoded message changes when the input buffer is overwritten after UnmarshalTTLV returned: " + firstDiff(dimpl, "ok "+again), Line: line})
+		}
+	}
 	dprops := "C01,C02,C06"
 	if back != nil {
 		dprops += ",C18"
@@ -212,6 +224,50 @@ func planCase(ctx *Ctx, s *schema.Schema, tg planTarget, x reflect.Value, confor
 		}
 	}
 	return b
+}
+
+// planReusedEncoder lives for the whole run: every value of the run is also encoded through it after Clear(), so
+// that whatever an encoder keeps between messages (buffer, protocol version of the previous header) meets every
+// kind of next message (other version, no header at all).
+var planReusedEncoder = ttlv.NewTTLVEncoder()
+
+// renderBack renders a value returned by unmarshalInto.
+func renderBack(s *schema.Schema, tg planTarget, back any) (string, error) {
+	v := reflect.ValueOf(back)
+	if tg.ty.Kind() != reflect.Pointer {
+		v = v.Elem()
+	}
+	return s.Render(v, s.Dyns[tg.dyn].Kind)
+}
+
+// planEncoderHygiene: three facts about ENCODING that the byte comparison with the model cannot see, stated on the
+// real code: the encoder leaves the message it is handed as it is; the bytes it returned stay as they are when
+// the library is called again; a cleared, re-used encoder gives the bytes a fresh one gives.
+func planEncoderHygiene(ctx *Ctx, s *schema.Schema, tg planTarget, x reflect.Value, val string, b []byte, conforming bool, line string) {
+	if after, err := s.Render(x, s.Dyns[tg.dyn].Kind); err != nil || after != val {
+		ctx.Res.Violate(report.Violation{Property: "C01", Oracle: "encoder-input-unmodified", Key: "plan:input-modified:" + s.Dyns[tg.dyn].GoType, Detail: "MarshalTTLV modified the message it was handed: " + firstDiff(val, after), Line: line})
+	}
+	keep := append([]byte{}, b...)
+	reuse, p := guard("Encoder reuse", func() []byte {
+		planReusedEncoder.Clear()
+		if tg.tag == 0 {
+			planReusedEncoder.Any(x.Interface())
+		} else {
+			planReusedEncoder.TagAny(tg.tag, x.Interface())
+		}
+		return append([]byte{}, planReusedEncoder.Bytes()...)
+	})
+	guard("MarshalTTLV (later call)", func() []byte {
+		return ttlv.MarshalTTLV(ttlv.Value{Tag: 0x42000F, Value: ttlv.Struct{{Tag: 0x420008, Value: bytes.Repeat([]byte{0xEE}, min(len(b), 1<<16)+8)}}})
+	})
+	if !bytes.Equal(b, keep) {
+		ctx.Res.Violate(report.Violation{Property: "C01", Oracle: "returned-bytes-stable", Key: "plan:returned-bytes-overwritten", Detail: "the byte slice returned by MarshalTTLV was overwritten by a later call into the library (the encoding of the message is no longer what the caller holds)", Line: line})
+		copy(b, keep)
+	}
+	ctx.Res.Count("plan.reused-encoder")
+	if conforming && (p != "" || !bytes.Equal(reuse, keep)) {
+		ctx.Res.Violate(report.Violation{Property: "C01", Oracle: "reused-encoder", Key: "plan:reused-encoder-differs:" + s.Dyns[tg.dyn].GoType, Detail: fmt.Sprintf("a cleared, re-used Encoder does not give the bytes of a fresh one (state kept across Clear): %d bytes instead of %d %s", len(reuse), len(keep), p), Line: line})
+	}
 }
 
 // planEntryPoints: the other public ways to run the same codec give the same result: MarshalTTLV on the struct
@@ -354,7 +410,11 @@ func planSizeWitnesses(ctx *Ctx, s *schema.Schema, reqT, respT planTarget, note 
 		v := new(big.Int).Lsh(big.NewInt(1), bits)
 		return v.Add(v, big.NewInt(d))
 	}
-	for _, n := range []int{16, 17, 64, 200, ctx.N(255, 1000)} {
+	batches := []int{16, 17, 64, 200, 255, 1100}
+	if ctx.Thor {
+		batches = append(batches, 5000, 20000)
+	}
+	for _, n := range batches {
 		// long request batch: Get / Locate-with-attributes alternating
 		req := &kmip.RequestMessage{Header: hdr(int32(n%5), n)}
 		for i := 0; i < n; i++ {
@@ -473,6 +533,8 @@ func planCoverageFloors(ctx *Ctx, s *schema.Schema) {
 	need("big.bits.300-4095", 3)
 	need("big.bits.4096+", 1)
 	need("big.negative", 5)
+	need("import.objtype.first", 1)
+	need("import.objtype.middle", 1)
 	need("text.invalid-utf8", 3)
 	need("date.extreme", 3)
 	for id := range dynTypes {
